@@ -68,6 +68,7 @@ type Cell struct {
 	Seed     uint64  `json:"seed"`
 	Choices  []int   `json:"choices,omitempty"` // replay: index of the released goroutine at each step
 	Dts      []int64 `json:"dts,omitempty"`     // replay: clock advance (ns) at each step
+	Sels     [][]int `json:"sels,omitempty"`    // replay: polling order of each rewritten select, in execution order
 }
 
 type Result struct {
@@ -83,6 +84,7 @@ type Result struct {
 	Deadlock         string         `json:"deadlock,omitempty"`
 	Choices          []int          `json:"choices"`
 	Dts              []int64        `json:"dts"`
+	Sels             [][]int        `json:"sels"`
 	FailFired        bool           `json:"fail_fired"`
 	Probes           map[string]int `json:"probes,omitempty"`
 	OpenAfterCompile bool           `json:"open_after_compile,omitempty"`
@@ -217,7 +219,36 @@ func runCell(t *testing.T, job *Job, cell Cell) (res *Result) {
 func bubble(job *Job, cell Cell, res *Result) {
 	s := &sched{rng: cell.Seed}
 	simrt.GateHook = s.gate
-	defer func() { simrt.GateHook = nil; simrt.FailHook = nil }()
+	selN := 0
+	simrt.SelectHook = func(site string, n int) []int {
+		s.mu.Lock()
+		defer s.mu.Unlock()
+		selN++
+		var o []int
+		if cell.Choices != nil {
+			if selN-1 < len(cell.Sels) && len(cell.Sels[selN-1]) == n {
+				o = cell.Sels[selN-1]
+			}
+		} else {
+			o = make([]int, n)
+			for i := range o {
+				o[i] = i
+			}
+			for i := n - 1; i > 0; i-- {
+				j := int(s.next() % uint64(i+1))
+				o[i], o[j] = o[j], o[i]
+			}
+		}
+		if o == nil {
+			o = make([]int, n)
+			for i := range o {
+				o[i] = i
+			}
+		}
+		res.Sels = append(res.Sels, o)
+		return o
+	}
+	defer func() { simrt.GateHook = nil; simrt.FailHook = nil; simrt.SelectHook = nil }()
 	failSeen := map[string]int{}
 	var failMu sync.Mutex
 	if cell.Failure.Kind == "failpoint" {
